@@ -673,6 +673,16 @@ func genSys(c *ctx) {
 				if c.rng.Intn(10) == 0 {
 					d.UpdateOption(dhcpv4.OptMessageType(dhcpv4.MessageType(c.rng.Intn(10))))
 				}
+				if c.rng.Intn(3) == 0 {
+					// any other option a client may send, well-formed or too short for its own header (host name, domain, vendor
+					// class, client FQDN, architecture, UUID, ...): nobody may trip over it (round 8: option 81 of two bytes)
+					code := []uint8{12, 12, 15, 43, 60, 77, 81, 81, 81, 93, 94, 97, 119, 124, 125, 224, uint8(1 + c.rng.Intn(254))}[c.rng.Intn(17)]
+					if code != 53 && code != 55 && code != 61 && code != 82 && code != 50 && code != 54 && code != 51 && code != 116 && code != 108 && code != 255 {
+						body := make([]byte, []int{0, 1, 2, 3, 4, 7, 16}[c.rng.Intn(7)])
+						c.rng.Read(body)
+						d.UpdateOption(dhcpv4.OptGeneric(dhcpv4.GenericOptionCode(code), body))
+					}
+				}
 				if c.rng.Intn(4) == 0 {
 					// option 50: an address of the range plugin's pool, none, another
 					d.UpdateOption(dhcpv4.OptRequestedIPAddress([]net.IP{u32ip(uint32(0x0a000a0a) + uint32(c.rng.Intn(206))), net.IPv4zero.To4(), net.IPv4(192, 168, 1, 77).To4()}[c.rng.Intn(3)]))
